@@ -68,11 +68,15 @@ func genC04(seed uint64, tier string) *plan.Plan {
 			for len(t.Fields) == 0 {
 				t = genTemplate(r, k.dom, k.id, o)
 			}
+			kind := "template"
 			if current[k] != nil {
+				if nt, ok := nearVariant(r, *current[k], o); ok && r.IntN(2) == 0 {
+					t, kind = nt, "template-near"
+				}
 				stale[k] = current[k]
 			}
 			current[k] = &t
-			add(client, t.templateMsg(hdr()), "template")
+			add(client, t.templateMsg(hdr()), kind)
 		case x < 5: // bad template, fails after the id was read
 			t := genTemplate(r, k.dom, k.id, tmplOpts{maxFields: 3})
 			var b []byte
@@ -349,6 +353,14 @@ func genC04Concurrent(r *rand.Rand, pl *plan.Plan) {
 		pl.Cfg[fmt.Sprintf("c_a%d", i)] = int64(a)
 		pl.Cfg[fmt.Sprintf("c_b%d", i)] = int64(b)
 	}
+	if r.IntN(3) == 0 {
+		// a domain whose only template is withdrawn by a malformed redefinition while another
+		// template of the same domain is being stored (see runC04Orphan)
+		pl.Cfg["c_orphan"] = int64(3 + r.IntN(6))
+		pl.Cfg["c_orphan_first"] = int64(r.IntN(2))
+		genSchedule(r, pl, 8, 3000)
+		return
+	}
 	pl.Ops = append(pl.Ops, plan.Op{K: "tmplv", T: 1, A: 0})
 	n := 4 + r.IntN(10)
 	for i := 0; i < n; i++ {
@@ -367,6 +379,10 @@ func runC04Concurrent(pl *plan.Plan, out *plan.Outcome) {
 	cp, err := collector.InitCollectingProcess(collector.CollectorInput{Address: "10.0.0.1:4739", Protocol: "tcp", MaxBufferSize: 65535, DecodingMode: modeNames[mode]})
 	if err != nil {
 		out.Trouble = err.Error()
+		return
+	}
+	if cfgOr(pl, "c_orphan", 0) > 0 {
+		runC04Orphan(pl, out, env, cp, mode)
 		return
 	}
 	nf := int(cfgOr(pl, "c_fields", 2))
@@ -504,4 +520,123 @@ func runC04Concurrent(pl *plan.Plan, out *plan.Outcome) {
 	out.Add("probe.data_decode_overlapping_template_change", int64(mixes))
 	out.Nontrivial = mixes > 0
 	out.Sample = map[string]any{"path": "concurrent redefinition", "fields": nf, "ops": len(pl.Ops)}
+}
+
+// runC04Orphan: per round a fresh observation domain d. Task C announces template X(d) and then sends a
+// malformed template set for X's id, which withdraws X - possibly the domain's last template. Task B
+// meanwhile announces template Y(d), another id, and afterwards sends data for Y. Nothing ever
+// invalidates Y: once its announcement has returned without error, its data has a template.
+func runC04Orphan(pl *plan.Plan, out *plan.Outcome, env *Env, cp *collector.CollectingProcess, mode int) {
+	rounds := int(cfgOr(pl, "c_orphan", 3))
+	if rounds > 16 {
+		rounds = 16
+	}
+	xFirst := cfgOr(pl, "c_orphan_first", 0) == 1
+	mkT := func(dom uint32, id uint16, key string) gTemplate {
+		t := gTemplate{Dom: dom, ID: id}
+		for i := 0; i < int(cfgOr(pl, "c_fields", 2)); i++ {
+			idx := int(cfgOr(pl, fmt.Sprintf("%s%d", key, i), 0))
+			if idx < 0 || idx >= len(catalog) {
+				idx = 0
+			}
+			sp := catalog[idx]
+			t.Fields = append(t.Fields, gField{F: sp.field(), Known: true, Spec: sp, Width: sp.Len})
+		}
+		return t
+	}
+	env.Go("consumer", func() {
+		for {
+			var ok bool
+			Block("consume", func() { _, ok = <-cp.GetMsgChan() })
+			if !ok {
+				return
+			}
+		}
+	})
+	startB := make([]chan struct{}, rounds)
+	startC := make([]chan struct{}, rounds)
+	for i := range startB {
+		startB[i], startC[i] = make(chan struct{}), make(chan struct{})
+	}
+	done := make(chan struct{}, 2*rounds)
+	hdr := ipfixref.Header{}
+	overlaps := 0
+	inB, inC := false, false
+	env.Go("C", func() {
+		for k := 0; k < rounds; k++ {
+			Block("round", func() { <-startC[k] })
+			x := mkT(uint32(100+k), 256, "c_a")
+			if !xFirst {
+				inC = true
+				Block("decode", func() { cp.VerifDecodePacket(x.templateMsg(hdr), "10.0.1.3:999") })
+				inC = false
+			}
+			bad := x.templateMsg(hdr)
+			bad[22], bad[23] = 0xff, 0xff // field count larger than the body: fails after the id was read
+			inC = true
+			if inB {
+				overlaps++
+			}
+			Block("decode", func() { cp.VerifDecodePacket(bad, "10.0.1.3:999") })
+			inC = false
+			done <- struct{}{}
+		}
+	})
+	env.Go("B", func() {
+		for k := 0; k < rounds; k++ {
+			Block("round", func() { <-startB[k] })
+			y := mkT(uint32(100+k), 257, "c_b")
+			var derr error
+			inB = true
+			if inC {
+				overlaps++
+			}
+			Block("decode", func() { _, derr = cp.VerifDecodePacket(y.templateMsg(hdr), "10.0.1.2:999") })
+			inB = false
+			if derr != nil {
+				env.Violate("rejected-decodable", "template", "round %d: valid template rejected: %v", k, derr)
+				done <- struct{}{}
+				continue
+			}
+			r := rand.New(rand.NewPCG(uint64(k), 0xc04d))
+			body := y.dataBody(r, 1+r.IntN(4), 0, false, false)
+			var msg *entities.Message
+			Block("decode", func() { msg, derr = cp.VerifDecodePacket(y.dataMsg(hdr, body), "10.0.1.2:999") })
+			env.Count("c04.concurrent_data_decodes", 1)
+			if derr != nil || msg == nil {
+				env.Violate("rejected-decodable", "concurrent", "round %d: a data set was refused (%v) although the template for its (domain, id) had been accepted by the preceding call on the same connection and was never redefined; only another template id of that domain was withdrawn meanwhile", k, derr)
+			} else {
+				var fs []mField
+				for _, f := range y.Fields {
+					fs = append(fs, mField{Ent: f.Spec.Ent, ID: f.Spec.ID, Known: true, Type: f.Spec.Type, Name: f.Spec.Name, Width: f.Spec.Len})
+				}
+				if recs, _, rerr := ipfixref.DecodeRecords(body, (&colModel{}).refFields(fs)); rerr == nil {
+					if m := matchData(mode, fs, recs, captureMsg(msg)); m != "" {
+						env.Violate("mixed-templates", "", "round %d: delivered data set is not the decode under its template: %s", k, m)
+					}
+				}
+			}
+			done <- struct{}{}
+		}
+	})
+	env.Go("driver", func() {
+		for k := 0; k < rounds; k++ {
+			if xFirst {
+				// X is in the table before the round's two tasks start
+				x := mkT(uint32(100+k), 256, "c_a")
+				Block("decode", func() { cp.VerifDecodePacket(x.templateMsg(hdr), "10.0.1.3:999") })
+			}
+			close(startB[k])
+			close(startC[k])
+			Block("join", func() { <-done })
+			Block("join", func() { <-done })
+		}
+		cp.CloseMsgChan()
+	})
+	if res := env.Run(); res != "done" && out.Trouble == "" {
+		out.Trouble = "run ended: " + res
+	}
+	out.Add("probe.template_store_overlapping_withdrawal", int64(overlaps))
+	out.Nontrivial = overlaps > 0
+	out.Sample = map[string]any{"path": "withdrawal of a domain's last template during a store", "rounds": rounds}
 }
